@@ -100,7 +100,7 @@ fn vx_ensure_pre_longs(lo: u8, hi: u8, actual: u8) -> (r: Result<(), Error>)
 { unimplemented!() }
 
 // allocation contract of C14: a parser may only allocate in proportion to the input it still has
-spec fn alloc_ok(nbytes: int, input_len: int) -> bool { nbytes <= 16 * input_len + 4096 }
+spec fn alloc_ok(nbytes: int, input_len: int) -> bool { nbytes <= 16 * input_len + 4096 && nbytes <= 0x7fff_ffff_ffff_ffff }
 // `Vec::with_capacity(n)` in a parser
 #[verifier::external_body]
 fn vx_with_capacity_u64(n: usize, Ghost(input_len): Ghost<int>) -> (r: Vec<u64>)
@@ -108,53 +108,172 @@ fn vx_with_capacity_u64(n: usize, Ghost(input_len): Ghost<int>) -> (r: Vec<u64>)
   ensures r@.len() == 0
 { Vec::with_capacity(n) }
 
+// `vec![0u64; n]` / `vec![0u8; n]` in deserialize_v4
+#[verifier::external_body]
+fn vx_zeroed_u64(n: usize, Ghost(input_len): Ghost<int>) -> (r: Vec<u64>)
+  requires /*@C14.theta_v4.alloc*/ alloc_ok(8 * n, input_len)
+  ensures r@.len() == n, forall|i: int| 0 <= i < n ==> r@[i] == 0u64,
+    8 * n <= 0x7fff_ffff_ffff_ffff,      // std: no Vec is larger than isize::MAX bytes
+{ vec![0u64; n] }
+#[verifier::external_body]
+fn vx_zeroed_u8(n: usize, Ghost(input_len): Ghost<int>) -> (r: Vec<u8>)
+  requires /*@C14.theta_v4.alloc_block*/ alloc_ok(n as int, input_len)
+  ensures r@.len() == n, forall|i: int| 0 <= i < n ==> r@[i] == 0u8
+{ vec![0u8; n] }
+// `vec![0u8; n]` in serialize_v4 (not a parser: no bound)
+#[verifier::external_body]
+fn vx_vec_u8(n: usize) -> (r: Vec<u8>)
+  ensures r@.len() == n, forall|i: int| 0 <= i < n ==> r@[i] == 0u8
+{ vec![0u8; n] }
+// `block.fill(0)`
+#[verifier::external_body]
+fn vx_fill_u8(v: &mut Vec<u8>, x: u8)
+  ensures final(v)@.len() == old(v)@.len(), forall|i: int| 0 <= i < old(v)@.len() ==> final(v)@[i] == x
+{ v.fill(x) }
+// `&block[lo..hi]`
+#[verifier::external_body]
+fn vx_subslice_u8(v: &Vec<u8>, lo: usize, hi: usize) -> (r: &[u8])
+  requires lo <= hi <= v@.len()
+  ensures r@ == v@.subrange(lo as int, hi as int)
+{ &v[lo..hi] }
+// `unpack_bits_block(&mut entries[lo..hi], bytes, bits)`: the sub-slice borrow plus the callee's contract
+#[verifier::external_body]
+fn vx_unpack_block_at(entries: &mut Vec<u64>, lo: usize, hi: usize, bytes: &[u8], bits: u8)
+  requires lo <= hi <= old(entries)@.len(), hi - lo == BLOCK_WIDTH,
+    /*@C14.theta_v4.entry_bits*/ 1 <= bits <= 63,
+    bits <= bytes@.len() < bits * BLOCK_WIDTH,
+  ensures final(entries)@.len() == old(entries)@.len(),
+    forall|i: int| 0 <= i < lo || hi <= i < old(entries)@.len() ==> final(entries)@[i] == old(entries)@[i],
+{ unpack_bits_block(&mut entries[lo..hi], bytes, bits) }
+pub assume_specification [ usize::div_ceil ] (a: usize, b: usize) -> (r: usize) requires b > 0 ensures r == (a + b - 1) / (b as int);
+pub assume_specification [ u32::div_ceil ] (a: u32, b: u32) -> (r: u32) requires b > 0 ensures r == (a + b - 1) / (b as int);
+
+// =====================================================================================================================
+// theta/bit_pack.rs, by contract: the preconditions are what the real functions need not to panic
+// =====================================================================================================================
+const BLOCK_WIDTH : usize = 8 ;
+
+
+// real: assert_eq!(values.len(), 8); assert!((1..=63).contains(&bits)); assert!(bytes.len() < bits * 8) (sic); then pack_bits_<bits> writes bytes[0..bits]
+#[verifier::external_body]
+fn pack_bits_block(values: &[u64], bytes: &mut [u8], bits: u8)
+  requires values@.len() == BLOCK_WIDTH, 1 <= bits <= 63, bits <= old(bytes)@.len() < bits * BLOCK_WIDTH
+  ensures final(bytes)@.len() == old(bytes)@.len()
+{ unimplemented!() }
+
+// real: same three asserts; unpack_bits_<bits> reads bytes[0..bits], writes values[0..8]
+#[verifier::external_body]
+fn unpack_bits_block(values: &mut [u64], bytes: &[u8], bits: u8)
+  requires old(values)@.len() == BLOCK_WIDTH, 1 <= bits <= 63, bits <= bytes@.len() < bits * BLOCK_WIDTH
+  ensures final(values)@.len() == old(values)@.len()
+{ unimplemented!() }
+
+#[verifier::external_body]
+struct BitPacker < 'a > {
+bytes : & 'a mut [ u8 ] , byte_index : usize , byte_bit_used : u8 , }
+
+
+impl<'a> BitPacker<'a> {
+    uninterp spec fn bitpos(&self) -> int;     // 8 * byte_index + byte_bit_used
+    uninterp spec fn cap(&self) -> int;        // 8 * bytes.len()
+
+    #[verifier::external_body]
+    fn new(bytes: &'a mut [u8]) -> (r: Self) ensures r.bitpos() == 0, r.cap() == 8 * old(bytes)@.len(), final(bytes)@.len() == old(bytes)@.len() {
+        unimplemented!()
+    }
+
+    #[verifier::external_body]
+    fn byte_used(&self) -> (r: usize) ensures r == (self.bitpos() + 7) / 8 {
+        unimplemented!()
+    }
+
+    // real: `value >> (bits - remain_bits)` / `value >> (bits - 8)` need bits <= 64; bytes[byte_index] needs the room
+    #[verifier::external_body]
+    fn pack_value(&mut self, value: u64, mut bits: u8)
+      requires bits <= 64, old(self).bitpos() + bits <= old(self).cap()
+      ensures final(self).bitpos() == old(self).bitpos() + bits, final(self).cap() == old(self).cap()
+    {
+        unimplemented!()
+    }
+}
+
+struct BitUnpacker < 'a > {
+bytes : & 'a [ u8 ] , byte_index : usize , byte_bit_used : u8 , }
+
+
+impl<'a> BitUnpacker<'a> {
+    spec fn bitpos(&self) -> int { 8 * self.byte_index + self.byte_bit_used }
+
+    fn new ( bytes : & 'a [ u8 ] ) -> ( r : Self ) ensures r . bytes @ == bytes @ , r . bitpos ( ) == 0 , r . byte_bit_used < 8 {
+Self {
+bytes , byte_index : 0 , byte_bit_used : 0 , }
+}
+
+
+    // real: every shift is by < 8 or exactly 8 on a u64; the only panic is bytes[byte_index] out of range
+    #[verifier::external_body]
+    fn unpack_value(&mut self, mut bits: u8) -> (r: u64)
+      requires old(self).byte_bit_used < 8, old(self).bitpos() + bits <= 8 * old(self).bytes@.len()
+      ensures final(self).bitpos() == old(self).bitpos() + bits, final(self).byte_bit_used < 8, final(self).bytes == old(self).bytes
+    {
+        unimplemented!()
+    }
+}
+
 // =====================================================================================================================
 // codec/encode.rs: SketchBytes, real bodies, view = the bytes written so far
 // =====================================================================================================================
 struct SketchBytes {
-    bytes: Vec<u8>,
-}
+bytes : Vec < u8 > , }
+
 
 impl SketchBytes {
     spec fn view(&self) -> Seq<u8> { self.bytes@ }
 
-    fn with_capacity(capacity: usize) -> (r: Self) ensures r@ == Seq::<u8>::empty() {
-        Self {
-            bytes: Vec::with_capacity(capacity),
-        }
-    }
+    fn with_capacity ( capacity : usize ) -> ( r : Self ) ensures r @ == Seq :: < u8 > :: empty ( ) {
+Self {
+bytes : Vec :: with_capacity ( capacity ) , }
+}
 
-    fn into_bytes(self) -> (r: Vec<u8>) ensures r@ == self@ {
-        self.bytes
-    }
 
-    fn write(&mut self, buf: &[u8]) ensures final(self)@ == old(self)@ + buf@ {
-        self.bytes.extend_from_slice(buf);
-    }
+    fn into_bytes ( self ) -> ( r : Vec < u8 > ) ensures r @ == self @ {
+self . bytes }
 
-    fn write_u8(&mut self, n: u8) ensures final(self)@ == old(self)@.push(n) {
-        self.bytes.push(n);
-    }
 
-    fn write_u16_le(&mut self, n: u16) ensures final(self)@ == old(self)@ + le16_bytes(n) {
-        self.write(&vx_u16_to_le_bytes(n));
-    }
+    fn write ( & mut self , buf : & [ u8 ] ) ensures final ( self ) @ == old ( self ) @ + buf @ {
+self . bytes . extend_from_slice ( buf ) ;
+}
 
-    fn write_u16_be(&mut self, n: u16) ensures final(self)@ == old(self)@ + be16_bytes(n) {
-        self.write(&vx_u16_to_be_bytes(n));
-    }
 
-    fn write_u32_le(&mut self, n: u32) ensures final(self)@ == old(self)@ + le32_bytes(n) {
-        self.write(&vx_u32_to_le_bytes(n));
-    }
+    fn write_u8 ( & mut self , n : u8 ) ensures final ( self ) @ == old ( self ) @ . push ( n ) {
+self . bytes . push ( n ) ;
+}
 
-    fn write_u32_be(&mut self, n: u32) ensures final(self)@ == old(self)@ + be32_bytes(n) {
-        self.write(&vx_u32_to_be_bytes(n));
-    }
 
-    fn write_u64_le(&mut self, n: u64) ensures final(self)@ == old(self)@ + le64_bytes(n) {
-        self.write(&vx_u64_to_le_bytes(n));
-    }
+    fn write_u16_le ( & mut self , n : u16 ) ensures final ( self ) @ == old ( self ) @ + le16_bytes ( n ) {
+self . write ( & vx_u16_to_le_bytes ( n ) ) ;
+}
+
+
+    fn write_u16_be ( & mut self , n : u16 ) ensures final ( self ) @ == old ( self ) @ + be16_bytes ( n ) {
+self . write ( & vx_u16_to_be_bytes ( n ) ) ;
+}
+
+
+    fn write_u32_le ( & mut self , n : u32 ) ensures final ( self ) @ == old ( self ) @ + le32_bytes ( n ) {
+self . write ( & vx_u32_to_le_bytes ( n ) ) ;
+}
+
+
+    fn write_u32_be ( & mut self , n : u32 ) ensures final ( self ) @ == old ( self ) @ + be32_bytes ( n ) {
+self . write ( & vx_u32_to_be_bytes ( n ) ) ;
+}
+
+
+    fn write_u64_le ( & mut self , n : u64 ) ensures final ( self ) @ == old ( self ) @ + le64_bytes ( n ) {
+self . write ( & vx_u64_to_le_bytes ( n ) ) ;
+}
+
 }
 
 // =====================================================================================================================
@@ -162,9 +281,9 @@ impl SketchBytes {
 // read_exact (std::io::Read on Cursor<&[u8]>) and new are the assumed leaves; read_u8 / read_u16_le / read_u32_le / read_u64_le are real bodies.
 // =====================================================================================================================
 #[verifier::external_body]
-struct SketchSlice<'a> {
-    slice: Cursor<&'a [u8]>,
-}
+struct SketchSlice < 'a > {
+slice : Cursor < & 'a [ u8 ] > , }
+
 
 impl SketchSlice<'_> {
     uninterp spec fn rem(&self) -> Seq<u8>;
@@ -184,85 +303,92 @@ impl SketchSlice<'_> {
         unimplemented!()
     }
 
-    fn read_u8(&mut self) -> (r: io::Result<u8>)
-      ensures
-        old(self).rem().len() >= 1 ==> (r matches Ok(v) && v == old(self).rem()[0] && final(self).rem() == old(self).rem().skip(1)),
-        old(self).rem().len() < 1 ==> r is Err,
-    {
-        let mut buf = [0u8; 1];
-        self.read_exact(&mut buf)?;
-        Ok(buf[0])
-    }
+    fn read_u8 ( & mut self ) -> ( r : io :: Result < u8 > ) ensures old ( self ) . rem ( ) . len ( ) >= 1 ==> ( r matches Ok ( v ) && v == old ( self ) . rem ( ) [ 0 ] && final ( self ) . rem ( ) == old ( self ) . rem ( ) . skip ( 1 ) ) , old ( self ) . rem ( ) . len ( ) < 1 ==> r is Err , {
+let mut buf = [ 0u8 ;
+1 ] ;
+self . read_exact ( & mut buf ) ? ;
+Ok ( buf [ 0 ] ) }
 
-    fn read_u16_le(&mut self) -> (r: io::Result<u16>)
-      ensures
-        old(self).rem().len() >= 2 ==> (r matches Ok(v) && v == le16_val(old(self).rem().take(2)) && final(self).rem() == old(self).rem().skip(2)),
-        old(self).rem().len() < 2 ==> r is Err,
-    {
-        let mut buf = [0u8; 2];
-        self.read_exact(&mut buf)?;
-        Ok(vx_u16_from_le_bytes(buf))
-    }
 
-    fn read_u32_le(&mut self) -> (r: io::Result<u32>)
-      ensures
-        old(self).rem().len() >= 4 ==> (r matches Ok(v) && v == le32_val(old(self).rem().take(4)) && final(self).rem() == old(self).rem().skip(4)),
-        old(self).rem().len() < 4 ==> r is Err,
-    {
-        let mut buf = [0u8; 4];
-        self.read_exact(&mut buf)?;
-        Ok(vx_u32_from_le_bytes(buf))
-    }
+    fn read_u16_le ( & mut self ) -> ( r : io :: Result < u16 > ) ensures old ( self ) . rem ( ) . len ( ) >= 2 ==> ( r matches Ok ( v ) && v == le16_val ( old ( self ) . rem ( ) . take ( 2 ) ) && final ( self ) . rem ( ) == old ( self ) . rem ( ) . skip ( 2 ) ) , old ( self ) . rem ( ) . len ( ) < 2 ==> r is Err , {
+let mut buf = [ 0u8 ;
+2 ] ;
+self . read_exact ( & mut buf ) ? ;
+Ok ( vx_u16_from_le_bytes ( buf ) ) }
 
-    fn read_u64_le(&mut self) -> (r: io::Result<u64>)
-      ensures
-        old(self).rem().len() >= 8 ==> (r matches Ok(v) && v == le64_val(old(self).rem().take(8)) && final(self).rem() == old(self).rem().skip(8)),
-        old(self).rem().len() < 8 ==> r is Err,
-    {
-        let mut buf = [0u8; 8];
-        self.read_exact(&mut buf)?;
-        Ok(vx_u64_from_le_bytes(buf))
-    }
+
+    fn read_u32_le ( & mut self ) -> ( r : io :: Result < u32 > ) ensures old ( self ) . rem ( ) . len ( ) >= 4 ==> ( r matches Ok ( v ) && v == le32_val ( old ( self ) . rem ( ) . take ( 4 ) ) && final ( self ) . rem ( ) == old ( self ) . rem ( ) . skip ( 4 ) ) , old ( self ) . rem ( ) . len ( ) < 4 ==> r is Err , {
+let mut buf = [ 0u8 ;
+4 ] ;
+self . read_exact ( & mut buf ) ? ;
+Ok ( vx_u32_from_le_bytes ( buf ) ) }
+
+
+    fn read_u64_le ( & mut self ) -> ( r : io :: Result < u64 > ) ensures old ( self ) . rem ( ) . len ( ) >= 8 ==> ( r matches Ok ( v ) && v == le64_val ( old ( self ) . rem ( ) . take ( 8 ) ) && final ( self ) . rem ( ) == old ( self ) . rem ( ) . skip ( 8 ) ) , old ( self ) . rem ( ) . len ( ) < 8 ==> r is Err , {
+let mut buf = [ 0u8 ;
+8 ] ;
+self . read_exact ( & mut buf ) ? ;
+Ok ( vx_u64_from_le_bytes ( buf ) ) }
+
 }
 
 // =====================================================================================================================
 // constants (taken from /repo every run)
 // =====================================================================================================================
-const MAX_THETA: u64 = i64::MAX as u64;
-const UNCOMPRESSED_SERIAL_VERSION: u8 = 3;
-const COMPRESSED_SERIAL_VERSION: u8 = 4;
-const V2_PREAMBLE_EMPTY: u8 = 1;
-const V2_PREAMBLE_PRECISE: u8 = 2;
-const V2_PREAMBLE_ESTIMATE: u8 = 3;
-exec const FLAGS_IS_READ_ONLY: u8 ensures FLAGS_IS_READ_ONLY == 2 { proof { assert((1u8 << 1) == 2) by (bit_vector); } 1 << 1 }
-exec const FLAGS_IS_EMPTY: u8 ensures FLAGS_IS_EMPTY == 4 { proof { assert((1u8 << 2) == 4) by (bit_vector); } 1 << 2 }
-exec const FLAGS_IS_COMPACT: u8 ensures FLAGS_IS_COMPACT == 8 { proof { assert((1u8 << 3) == 8) by (bit_vector); } 1 << 3 }
-exec const FLAGS_IS_ORDERED: u8 ensures FLAGS_IS_ORDERED == 16 { proof { assert((1u8 << 4) == 16) by (bit_vector); } 1 << 4 }
+const MAX_THETA : u64 = i64 :: MAX as u64 ;
+
+const UNCOMPRESSED_SERIAL_VERSION : u8 = 3 ;
+
+const COMPRESSED_SERIAL_VERSION : u8 = 4 ;
+
+const V2_PREAMBLE_EMPTY : u8 = 1 ;
+
+const V2_PREAMBLE_PRECISE : u8 = 2 ;
+
+const V2_PREAMBLE_ESTIMATE : u8 = 3 ;
+
+exec const FLAGS_IS_READ_ONLY : u8 ensures FLAGS_IS_READ_ONLY == 2 {
+proof {
+assert ( ( 1u8 << 1 ) == 2 ) by ( bit_vector ) ;
+}
+1 << 1 }
+
+exec const FLAGS_IS_EMPTY : u8 ensures FLAGS_IS_EMPTY == 4 {
+proof {
+assert ( ( 1u8 << 2 ) == 4 ) by ( bit_vector ) ;
+}
+1 << 2 }
+
+exec const FLAGS_IS_COMPACT : u8 ensures FLAGS_IS_COMPACT == 8 {
+proof {
+assert ( ( 1u8 << 3 ) == 8 ) by ( bit_vector ) ;
+}
+1 << 3 }
+
+exec const FLAGS_IS_ORDERED : u8 ensures FLAGS_IS_ORDERED == 16 {
+proof {
+assert ( ( 1u8 << 4 ) == 16 ) by ( bit_vector ) ;
+}
+1 << 4 }
+
 
 struct Family {
-    id: u8,
-    name: &'static str,
-    min_pre_longs: u8,
-    max_pre_longs: u8,
-}
+id : u8 , name : & 'static str , min_pre_longs : u8 , max_pre_longs : u8 , }
+
 
 impl Family {
-    const THETA: Family = Family {
-        id: 3,
-        name: "THETA",
-        min_pre_longs: 1,
-        max_pre_longs: 3,
-    };
+    const THETA : Family = Family {
+id : 3 , name : "THETA" , min_pre_longs : 1 , max_pre_longs : 3 , }
+;
 
-    fn validate_id(&self, family_id: u8) -> (r: Result<(), Error>)
-      ensures r is Ok <==> family_id == self.id
-    {
-        if family_id != self.id {
-            Err(Error::invalid_family(self.id, family_id, self.name))
-        } else {
-            Ok(())
-        }
-    }
+
+    fn validate_id ( & self , family_id : u8 ) -> ( r : Result < ( ) , Error > ) ensures r is Ok <==> family_id == self . id {
+if family_id != self . id {
+Err ( Error :: invalid_family ( self . id , family_id , self . name ) ) }
+else {
+Ok ( ( ) ) }
+}
+
 }
 
 // hash/mod.rs: the 16-bit seed hash, by contract (C16 unit `hashes`)
@@ -356,6 +482,22 @@ spec fn decode_spec(img: Seq<u8>, sh: u16) -> Option<ThetaImg> {
     else { None }
 }
 
+// serial version 4 (compressed): the header this crate writes; the packed deltas that follow are bit_pack.rs output (by contract only)
+spec fn v4_suitable(x: ThetaImg) -> bool { x.ordered && x.entries.len() != 0 && (x.entries.len() != 1 || x.theta < MAX_THETA_SPEC) }
+spec fn count_fits(n: u32, k: u8) -> bool { k <= 4 && (k == 0 ==> n == 0) && (k == 1 ==> n < 256) && (k == 2 ==> n < 65536) && (k == 3 ==> n < 0x100_0000) }
+spec fn le_count_bytes(n: u32, k: nat) -> Seq<u8> { Seq::new(k, |j: int| ((n >> (8 * j) as u32) & 0xff) as u8) }
+spec fn enc_v4_header(x: ThetaImg, entry_bits: u8, neb: u8) -> Seq<u8> {
+    let est = x.theta < MAX_THETA_SPEC; let n = x.entries.len() as u32;
+    seq![if est { 2u8 } else { 1u8 }, 4u8, 3u8, entry_bits, neb, 26u8] + le16_bytes(x.seed_hash)
+      + (if est { le64_bytes(x.theta) } else { Seq::<u8>::empty() })
+      + le_count_bytes(n, neb as nat)
+}
+// entryBits (byte 3) in 1..=63, numEntriesBytes (byte 4) enough for the count, and the image starts with the header of x
+spec fn is_v4_image_of(b: Seq<u8>, x: ThetaImg) -> bool {
+    b.len() >= 5 && 1 <= b[3] <= 63 && count_fits(x.entries.len() as u32, b[4])
+      && b.len() >= enc_v4_header(x, b[3], b[4]).len() && b.take(enc_v4_header(x, b[3], b[4]).len() as int) == enc_v4_header(x, b[3], b[4])
+}
+
 // well-formed abstract states (what ThetaSketch::compact produces, and what every other operation relies on)
 spec fn wf_img(x: ThetaImg) -> bool {
     &&& all_valid(x.entries, x.theta)
@@ -364,6 +506,8 @@ spec fn wf_img(x: ThetaImg) -> bool {
     &&& (x.ordered ==> sorted_strict(x.entries))
 }
 
+proof fn lemma_mul_le(a: int, b: int, c: int) requires 0 <= a <= b, 0 <= c ensures a * c <= b * c { assert(a * c <= b * c) by (nonlinear_arith) requires 0 <= a <= b, 0 <= c; }
+proof fn lemma_sorted_small(e: Seq<u64>) requires e.len() <= 1 ensures sorted_strict(e) { reveal(sorted_strict); }
 proof fn lemma_flags(e: bool, o: bool) ensures flag_empty(theta_flags(e, o)) == e, flag_ordered(theta_flags(e, o)) == o {
     let f = theta_flags(e, o);
     assert(f == 10 || f == 14 || f == 26 || f == 30) by (bit_vector) requires f == (2u8 | 8u8 | (if e { 4u8 } else { 0u8 }) | (if o { 16u8 } else { 0u8 }));
@@ -404,396 +548,578 @@ proof fn lemma_theta_v3_roundtrip(x: ThetaImg, sh: u16)
 // theta/sketch.rs
 // =====================================================================================================================
 struct CompactThetaSketch {
-    entries: Vec<u64>,
-    theta: u64,
-    seed_hash: u16,
-    ordered: bool,
-    empty: bool,
-}
+entries : Vec < u64 > , theta : u64 , seed_hash : u16 , ordered : bool , empty : bool , }
+
 
 impl CompactThetaSketch {
     spec fn img(&self) -> ThetaImg { ThetaImg { entries: self.entries@, theta: self.theta, seed_hash: self.seed_hash, ordered: self.ordered, empty: self.empty } }
     spec fn wf(&self) -> bool { wf_img(self.img()) }
 
-    fn theta64(&self) -> (r: u64) ensures r == self.theta {
-        self.theta
-    }
+    fn theta64 ( & self ) -> ( r : u64 ) ensures r == self . theta {
+self . theta }
 
-    fn is_empty(&self) -> (r: bool) ensures r == self.empty {
-        self.empty
-    }
 
-    fn is_estimation_mode(&self) -> (r: bool) ensures r == (self.theta < MAX_THETA_SPEC) {
-        self.theta < MAX_THETA
-    }
+    fn is_empty ( & self ) -> ( r : bool ) ensures r == self . empty {
+self . empty }
 
-    fn is_ordered(&self) -> (r: bool) ensures r == self.ordered {
-        self.ordered
-    }
 
-    fn preamble_longs(&self, compressed: bool) -> (r: u8)
-      ensures !compressed ==> r == v3_pre_longs(self.img()),
-        compressed ==> r == (if self.theta < MAX_THETA_SPEC { 2u8 } else { 1u8 }),
-    {
-        if compressed {
-            if self.is_estimation_mode() { 2 } else { 1 }
-        } else {
-            if self.is_estimation_mode() {
-                3
-            } else {
-                if self.is_empty() || self.entries.len() == 1 {
-                    1
-                } else {
-                    2
-                }
-            }
-        }
-    }
+    fn is_estimation_mode ( & self ) -> ( r : bool ) ensures r == ( self . theta < MAX_THETA_SPEC ) {
+self . theta < MAX_THETA }
 
-    fn serialize(&self) -> (r: Vec<u8>)
-      requires self.entries@.len() <= 0x0fff_ffff
-      ensures /*@C12.theta.v3*/ r@ == enc_theta_v3(self.img())
-    {
-        let mut bytes = SketchBytes::with_capacity(64 + self.entries.len() * 8);
 
-        let pre_longs = self.preamble_longs(false);
-        bytes.write_u8(pre_longs);
-        bytes.write_u8(UNCOMPRESSED_SERIAL_VERSION);
-        bytes.write_u8(Family::THETA.id);
-        bytes.write_u16_be(0); // unused for compact
+    fn is_ordered ( & self ) -> ( r : bool ) ensures r == self . ordered {
+self . ordered }
 
-        let mut flags = 0u8;
-        flags |= FLAGS_IS_READ_ONLY;
-        flags |= FLAGS_IS_COMPACT;
-        if self.is_empty() {
-            flags |= FLAGS_IS_EMPTY;
-        }
-        if self.is_ordered() {
-            flags |= FLAGS_IS_ORDERED;
-        }
-        bytes.write_u8(flags);
 
-        bytes.write_u16_le(self.seed_hash);
+    fn preamble_longs ( & self , compressed : bool ) -> ( r : u8 ) ensures ! compressed ==> r == v3_pre_longs ( self . img ( ) ) , compressed ==> r == ( if self . theta < MAX_THETA_SPEC {
+2u8 }
+else {
+1u8 }
+) , {
+if compressed {
+if self . is_estimation_mode ( ) {
+2 }
+else {
+1 }
+}
+else {
+if self . is_estimation_mode ( ) {
+3 }
+else {
+if self . is_empty ( ) || self . entries . len ( ) == 1 {
+1 }
+else {
+2 }
+}
+}
+}
 
-        if pre_longs > 1 {
-            bytes.write_u32_le(self.entries.len() as u32);
-            bytes.write_u32_be(0); // not used by compact sketches; match Java/C++
-        }
-        if self.is_estimation_mode() {
-            bytes.write_u64_le(self.theta64());
-        }
-        let ghost head = bytes@;
-        proof {
-            assert(be16_bytes(0) =~= seq![0u8, 0u8]) by { assert(((0u16 >> 8) & 0xff) as u8 == 0u8 && (0u16 & 0xff) as u8 == 0u8) by (bit_vector); }
-            assert(be32_bytes(0) =~= seq![0u8, 0u8, 0u8, 0u8]) by { assert(((0u32 >> 24) & 0xff) as u8 == 0u8 && ((0u32 >> 16) & 0xff) as u8 == 0u8 && ((0u32 >> 8) & 0xff) as u8 == 0u8 && (0u32 & 0xff) as u8 == 0u8) by (bit_vector); }
-            let e = self.empty; let o = self.ordered;
-            assert(forall|x: u8| #[trigger] (x | 0u8) == x) by (bit_vector);
-            assert(flags == theta_flags(e, o)) by (bit_vector)
-              requires flags == (((0u8 | 2u8) | 8u8) | (if e { 4u8 } else { 0u8 })) | (if o { 16u8 } else { 0u8 }), theta_flags(e, o) == (2u8 | 8u8 | (if e { 4u8 } else { 0u8 }) | (if o { 16u8 } else { 0u8 }));
-            assert(enc_u64s(self.entries@.take(0)) =~= Seq::<u8>::empty());
-        }
-        let mut vx_i = 0;
-        while vx_i < self.entries.len()
-          invariant 0 <= vx_i <= self.entries@.len(), bytes@ == head + enc_u64s(self.entries@.take(vx_i as int)),
-          decreases self.entries@.len() - vx_i
-        {
-            let hash = &self.entries[vx_i];
-            bytes.write_u64_le(*hash);
-            proof {
-                let a = self.entries@.take(vx_i + 1);
-                assert(a.drop_last() =~= self.entries@.take(vx_i as int));
-                assert(a.last() == self.entries@[vx_i as int]);
-            }
-            vx_i += 1;
-        }
-        proof { assert(self.entries@.take(self.entries@.len() as int) =~= self.entries@); }
-        bytes.into_bytes()
-    }
 
-    fn read_entries(
-        cursor: &mut SketchSlice<'_>,
-        num_entries: usize,
-        theta: u64,
-    ) -> (r: Result<Vec<u64>, Error>)
-      ensures
-        /*@C13.theta.entries*/ r matches Ok(v) ==> old(cursor).rem().len() >= 8 * num_entries && v@ == dec_u64s(old(cursor).rem(), num_entries as nat)
-            && final(cursor).rem() == old(cursor).rem().skip(8 * num_entries as int),
-        /*@C14.theta.entries_valid*/ r matches Ok(v) ==> all_valid(v@, theta),
-        /*@C13.theta.entries_complete*/ (old(cursor).rem().len() >= 8 * num_entries && all_valid(dec_u64s(old(cursor).rem(), num_entries as nat), theta)) ==> r is Ok,
-    {
-        let ghost r0 = cursor.rem();
-        let mut entries = vx_with_capacity_u64(num_entries, Ghost(cursor.rem().len() as int));
-        for vx_u in 0..num_entries
-          invariant entries@.len() == vx_u, r0.len() >= 8 * vx_u, r0 == old(cursor).rem(), cursor.rem() == r0.skip(8 * vx_u as int),
-            forall|i: int| 0 <= i < vx_u ==> entries@[i] == le64_val(r0.subrange(8 * i, 8 * i + 8)) && valid_hash(#[trigger] entries@[i], theta),
-        {
-            proof { if r0.len() >= 8 * num_entries { assert(cursor.rem().len() >= 8); } }
-            let hash = cursor.read_u64_le().vx_io("entries")?;
-            proof {
-                assert(hash == le64_val(r0.subrange(8 * vx_u, 8 * vx_u + 8))) by { assert(r0.skip(8 * vx_u as int).take(8) =~= r0.subrange(8 * vx_u, 8 * vx_u + 8)); }
-                assert(dec_u64s(r0, num_entries as nat)[vx_u as int] == hash);
-                assert(r0.skip(8 * vx_u as int).skip(8) =~= r0.skip(8 * (vx_u + 1) as int));
-            }
-            if hash == 0 || hash >= theta {
-                proof { assert(!valid_hash(dec_u64s(r0, num_entries as nat)[vx_u as int], theta)); }
-                return Err(Error::deserial("corrupted: invalid retained hash value"));
-            }
-            entries.push(hash);
-        }
-        proof { assert(entries@ =~= dec_u64s(r0, num_entries as nat)); }
-        Ok(entries)
-    }
-    fn deserialize_with_seed(bytes: &[u8], seed: u64) -> (r: Result<Self, Error>)
-      ensures
-        /*@C13.theta.dispatch*/ decode_spec(bytes@, seed_hash_of(seed)) matches Some(x) ==> (r matches Ok(s) && s.img() == x),
-        /*@C13.theta.dispatch_sound*/ r matches Ok(s) ==> bytes@.len() >= 3 && (bytes@[1] == 4 || decode_spec(bytes@, seed_hash_of(seed)) == Some(s.img())),
-        /*@C14.theta.total*/ r matches Ok(s) ==> all_valid(s.entries@, s.theta),
-    {
-        let mut cursor = SketchSlice::new(bytes);
-        let pre_longs = cursor
-            .read_u8()
-            .vx_io("preamble_longs")?;
-        let ser_ver = cursor
-            .read_u8()
-            .vx_io("serial_version")?;
-        let family_id = cursor.read_u8().vx_io("family_id")?;
+    fn serialize ( & self ) -> ( r : Vec < u8 > ) requires self . entries @ . len ( ) <= 0x0fff_ffff ensures
+/*@C12.theta.v3*/ r @ == enc_theta_v3 ( self . img ( ) ) {
+let mut bytes = SketchBytes :: with_capacity ( 64 + self . entries . len ( ) * 8 ) ;
+let pre_longs = self . preamble_longs ( false ) ;
+bytes . write_u8 ( pre_longs ) ;
+bytes . write_u8 ( UNCOMPRESSED_SERIAL_VERSION ) ;
+bytes . write_u8 ( Family :: THETA . id ) ;
+bytes . write_u16_be ( 0 ) ;
+let mut flags = 0u8 ;
+flags |= FLAGS_IS_READ_ONLY ;
+flags |= FLAGS_IS_COMPACT ;
+if self . is_empty ( ) {
+flags |= FLAGS_IS_EMPTY ;
+}
+if self . is_ordered ( ) {
+flags |= FLAGS_IS_ORDERED ;
+}
+bytes . write_u8 ( flags ) ;
+bytes . write_u16_le ( self . seed_hash ) ;
+if pre_longs > 1 {
+bytes . write_u32_le ( self . entries . len ( ) as u32 ) ;
+bytes . write_u32_be ( 0 ) ;
+}
+if self . is_estimation_mode ( ) {
+bytes . write_u64_le ( self . theta64 ( ) ) ;
+}
+let ghost head = bytes @ ;
+proof {
+assert ( be16_bytes ( 0 ) =~= seq! [ 0u8 , 0u8 ] ) by {
+assert ( ( ( 0u16 >> 8 ) & 0xff ) as u8 == 0u8 && ( 0u16 & 0xff ) as u8 == 0u8 ) by ( bit_vector ) ;
+}
+assert ( be32_bytes ( 0 ) =~= seq! [ 0u8 , 0u8 , 0u8 , 0u8 ] ) by {
+assert ( ( ( 0u32 >> 24 ) & 0xff ) as u8 == 0u8 && ( ( 0u32 >> 16 ) & 0xff ) as u8 == 0u8 && ( ( 0u32 >> 8 ) & 0xff ) as u8 == 0u8 && ( 0u32 & 0xff ) as u8 == 0u8 ) by ( bit_vector ) ;
+}
+let e = self . empty ;
+let o = self . ordered ;
+assert ( forall | x : u8 | # [ trigger ] ( x | 0u8 ) == x ) by ( bit_vector ) ;
+assert ( flags == theta_flags ( e , o ) ) by ( bit_vector ) requires flags == ( ( ( 0u8 | 2u8 ) | 8u8 ) | ( if e {
+4u8 }
+else {
+0u8 }
+) ) | ( if o {
+16u8 }
+else {
+0u8 }
+) , theta_flags ( e , o ) == ( 2u8 | 8u8 | ( if e {
+4u8 }
+else {
+0u8 }
+) | ( if o {
+16u8 }
+else {
+0u8 }
+) ) ;
+assert ( enc_u64s ( self . entries @ . take ( 0 ) ) =~= Seq :: < u8 > :: empty ( ) ) ;
+}
+let mut vx_i1 = 0 ;
+while vx_i1 < self . entries . len ( ) invariant 0 <= vx_i1 <= self . entries @ . len ( ) , bytes @ == head + enc_u64s ( self . entries @ . take ( vx_i1 as int ) ) , decreases self . entries @ . len ( ) - vx_i1 {
+let hash = & self . entries [ vx_i1 ] ;
+bytes . write_u64_le ( * hash ) ;
+proof {
+let a = self . entries @ . take ( vx_i1 + 1 ) ;
+assert ( a . drop_last ( ) =~= self . entries @ . take ( vx_i1 as int ) ) ;
+assert ( a . last ( ) == self . entries @ [ vx_i1 as int ] ) ;
+}
+vx_i1 += 1 ;
+}
+proof {
+assert ( self . entries @ . take ( self . entries @ . len ( ) as int ) =~= self . entries @ ) ;
+}
+bytes . into_bytes ( ) }
 
-        Family::THETA.validate_id(family_id)?;
 
-        // Validate pre_longs is within valid range for Theta sketch
-        vx_ensure_pre_longs(
-            Family::THETA.min_pre_longs, Family::THETA.max_pre_longs,
-            pre_longs,
-        )?;
-        proof { assert(bytes@.skip(1).skip(1).skip(1) =~= bytes@.skip(3)); }
+    fn serialize_compressed ( & self ) -> ( r : Vec < u8 > ) requires self . wf ( ) , self . entries @ . len ( ) <= 0x0fff_ffff ensures
+/*@C12.theta.compressed_fallback*/ ! v4_suitable ( self . img ( ) ) ==> r @ == enc_theta_v3 ( self . img ( ) ) ,
+/*@C12.theta.compressed_header*/ v4_suitable ( self . img ( ) ) ==> is_v4_image_of ( r @ , self . img ( ) ) , {
+if self . is_suitable_for_compression ( ) {
+self . serialize_v4 ( ) }
+else {
+self . serialize ( ) }
+}
 
-        match ser_ver {
-            1 => Self::deserialize_v1(cursor, seed),
-            2 => Self::deserialize_v2(pre_longs, cursor, seed),
-            3 => Self::deserialize_v3(pre_longs, cursor, seed),
-            4 => Self::deserialize_v4(pre_longs, cursor, seed),
-            _ => Err(vx_err_deserial_fmt()),
-        }
-    }
 
-    fn deserialize_v1(mut cursor: SketchSlice<'_>, expected_seed: u64) -> (r: Result<Self, Error>)
-      ensures
-        /*@C13.theta.v1*/ decode_spec_v1(cursor.rem(), seed_hash_of(expected_seed)) matches Some(x) ==> (r matches Ok(s) && s.img() == x),
-        /*@C13.theta.v1_sound*/ r matches Ok(s) ==> decode_spec_v1(cursor.rem(), seed_hash_of(expected_seed)) == Some(s.img()),
-        /*@C14.theta.v1_total*/ r matches Ok(s) ==> all_valid(s.entries@, s.theta) && (s.empty ==> s.entries@.len() == 0 && s.theta == MAX_THETA_SPEC),
-        /*@C14.theta.v1_theta_range*/ r matches Ok(s) ==> 0 < s.theta <= MAX_THETA_SPEC,
-        /*@C14.theta.v1_sorted*/ r matches Ok(s) ==> (s.ordered ==> sorted_strict(s.entries@)),
-    {
-        let ghost p = cursor.rem();
-        let seed_hash = compute_seed_hash(expected_seed);
-        cursor.read_u8().vx_io("<unused>")?;
-        cursor
-            .read_u32_le()
-            .vx_io("<unused_u32_0>")?;
-        let num_entries = cursor
-            .read_u32_le()
-            .vx_io("num_entries")? as usize;
-        cursor
-            .read_u32_le()
-            .vx_io("<unused_u32_1>")?;
-        let theta = cursor
-            .read_u64_le()
-            .vx_io("theta_long")?;
-        proof {
-            assert(p.skip(1).skip(4).take(4) =~= p.subrange(5, 9));
-            assert(p.skip(1).skip(4).skip(4).skip(4).take(8) =~= p.subrange(13, 21));
-            assert(p.skip(1).skip(4).skip(4).skip(4).skip(8) =~= p.skip(21));
-        }
+    fn is_suitable_for_compression ( & self ) -> ( r : bool ) ensures r == v4_suitable ( self . img ( ) ) {
+self . ordered && ! self . entries . is_empty ( ) && ( self . entries . len ( ) != 1 || self . is_estimation_mode ( ) ) }
 
-        let empty = num_entries == 0 && theta == MAX_THETA;
-        if empty {
-            proof { assert(dec_u64s(p.skip(21), 0) =~= Seq::<u64>::empty()); }
-            return Ok(Self {
-                entries: vec![],
-                theta,
-                seed_hash,
-                ordered: true,
-                empty: true,
-            });
-        }
 
-        let entries = Self::read_entries(&mut cursor, num_entries, theta)?;
+    fn serialize_v4 ( & self ) -> ( r : Vec < u8 > ) requires self . wf ( ) , v4_suitable ( self . img ( ) ) , self . entries @ . len ( ) <= 0x0fff_ffff ensures
+/*@C12.theta.v4_header*/ is_v4_image_of ( r @ , self . img ( ) ) {
+let pre_longs = self . preamble_longs ( true ) ;
+let entry_bits = Self :: compute_entry_bits ( & self . entries ) ;
+let num_entries_bytes = Self :: num_entries_bytes ( self . entries . len ( ) ) ;
+proof {
+assert ( entry_bits as usize * self . entries @ . len ( ) <= 63 * 0x0fff_ffff ) by ( nonlinear_arith ) requires entry_bits <= 63 , self . entries @ . len ( ) <= 0x0fff_ffff ;
+}
+let compressed_bits = entry_bits as usize * self . entries . len ( ) ;
+let compressed_bytes = compressed_bits . div_ceil ( 8 ) ;
+let out_bytes = ( pre_longs as usize * 8 ) + ( num_entries_bytes as usize ) + compressed_bytes ;
+let mut bytes = SketchBytes :: with_capacity ( out_bytes ) ;
+bytes . write_u8 ( pre_longs ) ;
+bytes . write_u8 ( COMPRESSED_SERIAL_VERSION ) ;
+bytes . write_u8 ( Family :: THETA . id ) ;
+bytes . write_u8 ( entry_bits ) ;
+bytes . write_u8 ( num_entries_bytes ) ;
+let mut flags = 0u8 ;
+flags |= FLAGS_IS_READ_ONLY ;
+flags |= FLAGS_IS_COMPACT ;
+flags |= FLAGS_IS_ORDERED ;
+bytes . write_u8 ( flags ) ;
+bytes . write_u16_le ( self . seed_hash ) ;
+if self . is_estimation_mode ( ) {
+bytes . write_u64_le ( self . theta ) ;
+}
+proof {
+assert ( flags == 26u8 ) by ( bit_vector ) requires flags == ( ( 0u8 | 2u8 ) | 8u8 ) | 16u8 ;
+}
+let ghost head = bytes @ ;
+let ghost n0 = self . entries @ . len ( ) as u32 ;
+proof {
+assert ( n0 >> 0u32 == n0 ) by ( bit_vector ) ;
+assert ( le_count_bytes ( n0 , 0 ) =~= Seq :: < u8 > :: empty ( ) ) ;
+}
+let mut n = self . entries . len ( ) as u32 ;
+for vx_u1 in 0 .. num_entries_bytes invariant num_entries_bytes <= 4 , n == n0 >> ( 8 * vx_u1 as u32 ) , bytes @ == head + le_count_bytes ( n0 , vx_u1 as nat ) , {
+bytes . write_u8 ( ( n & 0xff ) as u8 ) ;
+proof {
+let j = vx_u1 as u32 ;
+assert ( j < 4 ==> ( ( n0 >> ( 8 * j ) ) >> 8 ) == n0 >> ( 8 * ( j + 1 ) as u32 ) ) by ( bit_vector ) ;
+assert ( le_count_bytes ( n0 , vx_u1 as nat + 1 ) =~= le_count_bytes ( n0 , vx_u1 as nat ) . push ( ( ( n0 >> ( 8 * j ) ) & 0xff ) as u8 ) ) ;
+}
+n >>= 8 ;
+}
+let ghost hdr = bytes @ ;
+let mut previous = 0u64 ;
+let mut i = 0usize ;
+let mut block = vx_vec_u8 ( entry_bits as usize ) ;
+proof {
+reveal ( sorted_strict ) ;
+}
+while i + BLOCK_WIDTH <= self . entries . len ( ) invariant i <= self . entries @ . len ( ) , self . entries @ . len ( ) <= 0x0fff_ffff , block @ . len ( ) == entry_bits , 1 <= entry_bits <= 63 || self . entries @ . len ( ) == 0 , previous == ( if i == 0 {
+0u64 }
+else {
+self . entries @ [ i - 1 ] }
+) , sorted_strict ( self . entries @ ) , bytes @ . len ( ) >= hdr . len ( ) , bytes @ . take ( hdr . len ( ) as int ) == hdr , decreases self . entries @ . len ( ) - i {
+let mut deltas = [ 0u64 ;
+BLOCK_WIDTH ] ;
+for j in 0 .. BLOCK_WIDTH invariant i + BLOCK_WIDTH <= self . entries @ . len ( ) , self . entries @ . len ( ) <= 0x0fff_ffff , deltas @ . len ( ) == 8 , sorted_strict ( self . entries @ ) , previous == ( if i + j == 0 {
+0u64 }
+else {
+self . entries @ [ i + j - 1 ] }
+) , {
+proof {
+reveal ( sorted_strict ) ;
+}
+let entry = self . entries [ i + j ] ;
+deltas [ j ] = entry - previous ;
+previous = entry ;
+}
+vx_fill_u8 ( & mut block , 0 ) ;
+pack_bits_block ( & deltas , & mut block , entry_bits ) ;
+let ghost before = bytes @ ;
+bytes . write ( & block ) ;
+proof {
+assert ( ( before + block @ ) . take ( hdr . len ( ) as int ) =~= before . take ( hdr . len ( ) as int ) ) ;
+}
+i += BLOCK_WIDTH ;
+}
+if i < self . entries . len ( ) {
+let mut block = vx_vec_u8 ( entry_bits as usize ) ;
+let mut packer = BitPacker :: new ( & mut block ) ;
+let ghost i0 = i ;
+while i < self . entries . len ( ) invariant i0 <= i <= self . entries @ . len ( ) , self . entries @ . len ( ) - i0 < 8 , entry_bits <= 63 , packer . cap ( ) == 8 * entry_bits , packer . bitpos ( ) == ( i - i0 ) * entry_bits , previous == ( if i == 0 {
+0u64 }
+else {
+self . entries @ [ i - 1 ] }
+) , sorted_strict ( self . entries @ ) , decreases self . entries @ . len ( ) - i {
+proof {
+reveal ( sorted_strict ) ;
+lemma_mul_le ( i - i0 + 1 , 8 , entry_bits as int ) ;
+assert ( ( i - i0 + 1 ) * entry_bits == ( i - i0 ) * entry_bits + entry_bits ) by ( nonlinear_arith ) ;
+}
+let delta = self . entries [ i ] - previous ;
+previous = self . entries [ i ] ;
+packer . pack_value ( delta , entry_bits ) ;
+i += 1 ;
+}
+let bytes_used = packer . byte_used ( ) ;
+proof {
+lemma_mul_le ( i - i0 , 8 , entry_bits as int ) ;
+}
+let ghost before = bytes @ ;
+bytes . write ( vx_subslice_u8 ( & block , 0 , bytes_used ) ) ;
+proof {
+assert ( ( before + block @ . subrange ( 0 , bytes_used as int ) ) . take ( hdr . len ( ) as int ) =~= before . take ( hdr . len ( ) as int ) ) ;
+}
+}
+proof {
+let x = self . img ( ) ;
+let b = bytes @ ;
+assert ( hdr =~= enc_v4_header ( x , entry_bits , num_entries_bytes ) ) ;
+assert ( b . take ( hdr . len ( ) as int ) [ 3 ] == b [ 3 ] && b . take ( hdr . len ( ) as int ) [ 4 ] == b [ 4 ] ) ;
+assert ( hdr [ 3 ] == entry_bits && hdr [ 4 ] == num_entries_bytes ) ;
+}
+bytes . into_bytes ( ) }
 
-        Ok(Self {
-            entries,
-            theta,
-            seed_hash,
-            ordered: true,
-            empty: false,
-        })
-    }
 
-    fn deserialize_v2(
-        pre_longs: u8,
-        mut cursor: SketchSlice<'_>,
-        expected_seed: u64,
-    ) -> (r: Result<Self, Error>)
-      ensures
-        /*@C13.theta.v2*/ decode_spec_v2(cursor.rem(), pre_longs, seed_hash_of(expected_seed)) matches Some(x) ==> (r matches Ok(s) && s.img() == x),
-        /*@C13.theta.v2_sound*/ r matches Ok(s) ==> decode_spec_v2(cursor.rem(), pre_longs, seed_hash_of(expected_seed)) == Some(s.img()),
-        /*@C14.theta.v2_total*/ r matches Ok(s) ==> all_valid(s.entries@, s.theta) && (s.empty ==> s.entries@.len() == 0 && s.theta == MAX_THETA_SPEC),
-        /*@C14.theta.v2_theta_range*/ r matches Ok(s) ==> 0 < s.theta <= MAX_THETA_SPEC,
-        /*@C14.theta.v2_sorted*/ r matches Ok(s) ==> (s.ordered ==> sorted_strict(s.entries@)),
-    {
-        let ghost p = cursor.rem();
-        cursor.read_u8().vx_io("<unused>")?;
-        cursor
-            .read_u16_le()
-            .vx_io("<unused_u16>")?;
-        let seed_hash = cursor
-            .read_u16_le()
-            .vx_io("seed_hash")?;
-        proof {
-            assert(p.skip(1).skip(2).take(2) =~= p.subrange(3, 5));
-            assert(p.skip(1).skip(2).skip(2) =~= p.skip(5));
-        }
-        let expected_seed_hash = compute_seed_hash(expected_seed);
-        if seed_hash != expected_seed_hash {
-            return Err(vx_err_deserial_fmt());
-        }
+    fn compute_entry_bits ( entries : & [ u64 ] ) -> ( r : u8 ) requires sorted_strict ( entries @ ) , forall | i : int | 0 <= i < entries @ . len ( ) ==> 0 < # [ trigger ] entries @ [ i ] < 0x8000_0000_0000_0000 , ensures r <= 63 , entries @ . len ( ) > 0 ==> 1 <= r , {
+let mut previous = 0u64 ;
+let mut ored = 0u64 ;
+let mut vx_i1 = 0 ;
+while vx_i1 < entries . len ( ) invariant vx_i1 <= entries @ . len ( ) , previous == ( if vx_i1 == 0 {
+0u64 }
+else {
+entries @ [ vx_i1 - 1 ] }
+) , ored < 0x8000_0000_0000_0000 , vx_i1 > 0 ==> ored >= 1 , sorted_strict ( entries @ ) , forall | i : int | 0 <= i < entries @ . len ( ) ==> 0 < # [ trigger ] entries @ [ i ] < 0x8000_0000_0000_0000 , decreases entries @ . len ( ) - vx_i1 {
+let entry = entries [ vx_i1 ] ;
+proof {
+reveal ( sorted_strict ) ;
+}
+let delta = entry - previous ;
+proof {
+assert ( ored < 0x8000_0000_0000_0000u64 && delta < 0x8000_0000_0000_0000u64 ==> ( ored | delta ) < 0x8000_0000_0000_0000u64 && ( ored | delta ) >= delta ) by ( bit_vector ) ;
+}
+ored |= delta ;
+previous = entry ;
+vx_i1 += 1 ;
+}
+proof {
+vstd :: std_specs :: bits :: axiom_u64_leading_zeros ( ored ) ;
+assert ( ored < 0x8000_0000_0000_0000u64 ==> ( ored >> 63u64 ) & 1u64 == 0u64 ) by ( bit_vector ) ;
+}
+( 64 - ored . leading_zeros ( ) ) as u8 }
 
-        match pre_longs {
-            V2_PREAMBLE_EMPTY => Ok(Self {
-                entries: vec![],
-                theta: MAX_THETA,
-                seed_hash,
-                ordered: true,
-                empty: true,
-            }),
-            V2_PREAMBLE_PRECISE => {
-                let num_entries = cursor
-                    .read_u32_le()
-                    .vx_io("num_entries")?
-                    as usize;
-                cursor
-                    .read_u32_le()
-                    .vx_io("<unused_u32>")?;
-                proof {
-                    assert(p.skip(5).take(4) =~= p.subrange(5, 9));
-                    assert(p.skip(5).skip(4).skip(4) =~= p.skip(13));
-                }
-                let entries = Self::read_entries(&mut cursor, num_entries, MAX_THETA)?;
-                Ok(Self {
-                    empty: entries.is_empty(),
-                    entries,
-                    theta: MAX_THETA,
-                    seed_hash,
-                    ordered: true,
-                })
-            }
-            V2_PREAMBLE_ESTIMATE => {
-                let num_entries = cursor
-                    .read_u32_le()
-                    .vx_io("num_entries")?
-                    as usize;
-                cursor
-                    .read_u32_le()
-                    .vx_io("<unused_u32>")?;
-                let theta = cursor
-                    .read_u64_le()
-                    .vx_io("theta_long")?;
-                proof {
-                    assert(p.skip(5).take(4) =~= p.subrange(5, 9));
-                    assert(p.skip(5).skip(4).skip(4).take(8) =~= p.subrange(13, 21));
-                    assert(p.skip(5).skip(4).skip(4).skip(8) =~= p.skip(21));
-                }
-                let empty = (num_entries == 0) && (theta == MAX_THETA);
-                let entries = Self::read_entries(&mut cursor, num_entries, theta)?;
-                Ok(Self {
-                    entries,
-                    theta,
-                    seed_hash,
-                    ordered: true,
-                    empty,
-                })
-            }
-            _ => Err(Error::invalid_preamble_longs(&[1, 2, 3], pre_longs)),
-        }
-    }
 
-    #[verifier::external_body]
-    fn deserialize_v4(
-        pre_longs: u8,
-        mut cursor: SketchSlice<'_>,
-        expected_seed: u64,
-    ) -> (r: Result<Self, Error>)
-      ensures r matches Ok(s) ==> all_valid(s.entries@, s.theta),
-    { unimplemented!() }
+    fn num_entries_bytes ( num_entries : usize ) -> ( r : u8 ) ensures r <= 4 , count_fits ( num_entries as u32 , r ) , {
+let n = num_entries as u32 ;
+let bits = u32 :: BITS - n . leading_zeros ( ) ;
+proof {
+vstd :: std_specs :: bits :: axiom_u32_leading_zeros ( n ) ;
+assert ( bits <= 32 && n >> bits == 0 ==> ( bits == 0 ==> n == 0 ) && ( bits <= 8 ==> n < 256 ) && ( bits <= 16 ==> n < 65536 ) && ( bits <= 24 ==> n < 0x100_0000 ) ) by ( bit_vector ) ;
+}
+bits . div_ceil ( 8 ) as u8 }
 
-    fn deserialize_v3(
-        pre_longs: u8,
-        mut cursor: SketchSlice<'_>,
-        expected_seed: u64,
-    ) -> (r: Result<Self, Error>)
-      requires 1 <= pre_longs <= 3,       // validated by deserialize_with_seed before dispatch; the BYTES are arbitrary
-      ensures
-        /*@C13.theta.v3*/ decode_spec_v3(cursor.rem(), pre_longs, seed_hash_of(expected_seed)) matches Some(x) ==> (r matches Ok(s) && s.img() == x),
-        /*@C13.theta.v3_sound*/ r matches Ok(s) ==> decode_spec_v3(cursor.rem(), pre_longs, seed_hash_of(expected_seed)) == Some(s.img()),
-        /*@C14.theta.v3_total*/ r matches Ok(s) ==> all_valid(s.entries@, s.theta) && (s.empty ==> s.entries@.len() == 0 && s.theta == MAX_THETA_SPEC),
-        /*@C14.theta.v3_theta_range*/ r matches Ok(s) ==> 0 < s.theta <= MAX_THETA_SPEC,
-        /*@C14.theta.v3_sorted*/ r matches Ok(s) ==> (s.ordered ==> sorted_strict(s.entries@)),
-    {
-        let ghost p = cursor.rem();
-        cursor
-            .read_u16_le()
-            .vx_io("<unused_u32>")?;
-        let flags = cursor.read_u8().vx_io("flags")?;
-        let seed_hash = cursor
-            .read_u16_le()
-            .vx_io("seed_hash")?;
-        proof {
-            assert(p.skip(2).skip(1).take(2) =~= p.subrange(3, 5));
-            assert(p.skip(2).skip(1).skip(2) =~= p.skip(5));
-        }
 
-        let empty = (flags & FLAGS_IS_EMPTY) != 0;
-        let mut theta = MAX_THETA;
-        let num_entries;
-        let mut entries = vec![];
-        if !empty {
-            let expected_seed_hash = compute_seed_hash(expected_seed);
-            if seed_hash != expected_seed_hash {
-                return Err(vx_err_deserial_fmt());
-            }
-            if pre_longs == 1 {
-                num_entries = 1;
-            } else {
-                num_entries = cursor
-                    .read_u32_le()
-                    .vx_io("num_entries")?;
-                cursor
-                    .read_u32_le()
-                    .vx_io("<unused_u32>")?;
-                proof {
-                    assert(p.skip(5).take(4) =~= p.subrange(5, 9));
-                    assert(p.skip(5).skip(4).skip(4) =~= p.skip(13));
-                }
-                if pre_longs > 2 {
-                    theta = cursor
-                        .read_u64_le()
-                        .vx_io("theta_long")?;
-                    proof {
-                        assert(p.skip(13).take(8) =~= p.subrange(13, 21));
-                        assert(p.skip(13).skip(8) =~= p.skip(21));
-                    }
-                }
-            }
-            entries = Self::read_entries(&mut cursor, num_entries as usize, theta)?;
-        }
-        let ordered = (flags & FLAGS_IS_ORDERED) != 0;
-        Ok(Self {
-            entries,
-            theta,
-            seed_hash,
-            ordered,
-            empty,
-        })
+    fn read_entries ( cursor : & mut SketchSlice < '_ > , num_entries : usize , theta : u64 , ) -> ( r : Result < Vec < u64 > , Error > ) ensures
+/*@C13.theta.entries*/ r matches Ok ( v ) ==> old ( cursor ) . rem ( ) . len ( ) >= 8 * num_entries && v @ == dec_u64s ( old ( cursor ) . rem ( ) , num_entries as nat ) && final ( cursor ) . rem ( ) == old ( cursor ) . rem ( ) . skip ( 8 * num_entries as int ) ,
+/*@C14.theta.entries_valid*/ r matches Ok ( v ) ==> all_valid ( v @ , theta ) ,
+/*@C13.theta.entries_complete*/ ( old ( cursor ) . rem ( ) . len ( ) >= 8 * num_entries && all_valid ( dec_u64s ( old ( cursor ) . rem ( ) , num_entries as nat ) , theta ) ) ==> r is Ok , {
+let ghost r0 = cursor . rem ( ) ;
+let mut entries = vx_with_capacity_u64 ( num_entries , Ghost ( cursor . rem ( ) . len ( ) as int ) ) ;
+for vx_u1 in 0 .. num_entries invariant entries @ . len ( ) == vx_u1 , r0 . len ( ) >= 8 * vx_u1 , r0 == old ( cursor ) . rem ( ) , cursor . rem ( ) == r0 . skip ( 8 * vx_u1 as int ) , forall | i : int | 0 <= i < vx_u1 ==> entries @ [ i ] == le64_val ( r0 . subrange ( 8 * i , 8 * i + 8 ) ) && valid_hash ( # [ trigger ] entries @ [ i ] , theta ) , {
+proof {
+if r0 . len ( ) >= 8 * num_entries {
+assert ( cursor . rem ( ) . len ( ) >= 8 ) ;
+}
+}
+let hash = cursor . read_u64_le ( ) . vx_io ( "entries" ) ? ;
+proof {
+assert ( hash == le64_val ( r0 . subrange ( 8 * vx_u1 , 8 * vx_u1 + 8 ) ) ) by {
+assert ( r0 . skip ( 8 * vx_u1 as int ) . take ( 8 ) =~= r0 . subrange ( 8 * vx_u1 , 8 * vx_u1 + 8 ) ) ;
+}
+assert ( dec_u64s ( r0 , num_entries as nat ) [ vx_u1 as int ] == hash ) ;
+assert ( r0 . skip ( 8 * vx_u1 as int ) . skip ( 8 ) =~= r0 . skip ( 8 * ( vx_u1 + 1 ) as int ) ) ;
+}
+if hash == 0 || hash >= theta {
+proof {
+assert ( ! valid_hash ( dec_u64s ( r0 , num_entries as nat ) [ vx_u1 as int ] , theta ) ) ;
+}
+return Err ( Error :: deserial ( "corrupted: invalid retained hash value" ) ) ;
+}
+entries . push ( hash ) ;
+}
+proof {
+assert ( entries @ =~= dec_u64s ( r0 , num_entries as nat ) ) ;
+}
+Ok ( entries ) }
+
+    fn deserialize_with_seed ( bytes : & [ u8 ] , seed : u64 ) -> ( r : Result < Self , Error > ) ensures
+/*@C13.theta.dispatch*/ decode_spec ( bytes @ , seed_hash_of ( seed ) ) matches Some ( x ) ==> ( r matches Ok ( s ) && s . img ( ) == x ) ,
+/*@C13.theta.dispatch_sound*/ r matches Ok ( s ) ==> bytes @ . len ( ) >= 3 && ( bytes @ [ 1 ] == 4 || decode_spec ( bytes @ , seed_hash_of ( seed ) ) == Some ( s . img ( ) ) ) ,
+/*@C14.theta.total*/ r matches Ok ( s ) ==> all_valid ( s . entries @ , s . theta ) , {
+let mut cursor = SketchSlice :: new ( bytes ) ;
+let pre_longs = cursor . read_u8 ( ) . vx_io ( "preamble_longs" ) ? ;
+let ser_ver = cursor . read_u8 ( ) . vx_io ( "serial_version" ) ? ;
+let family_id = cursor . read_u8 ( ) . vx_io ( "family_id" ) ? ;
+Family :: THETA . validate_id ( family_id ) ? ;
+vx_ensure_pre_longs ( Family :: THETA . min_pre_longs , Family :: THETA . max_pre_longs , pre_longs , ) ? ;
+proof {
+assert ( bytes @ . skip ( 1 ) . skip ( 1 ) . skip ( 1 ) =~= bytes @ . skip ( 3 ) ) ;
+}
+match ser_ver {
+1 => Self :: deserialize_v1 ( cursor , seed ) , 2 => Self :: deserialize_v2 ( pre_longs , cursor , seed ) , 3 => Self :: deserialize_v3 ( pre_longs , cursor , seed ) , 4 => Self :: deserialize_v4 ( pre_longs , cursor , seed ) , _ => Err ( vx_err_deserial_fmt ( ) ) , }
+}
+
+
+    fn deserialize_v1 ( mut cursor : SketchSlice < '_ > , expected_seed : u64 ) -> ( r : Result < Self , Error > ) ensures
+/*@C13.theta.v1*/ decode_spec_v1 ( cursor . rem ( ) , seed_hash_of ( expected_seed ) ) matches Some ( x ) ==> ( r matches Ok ( s ) && s . img ( ) == x ) ,
+/*@C13.theta.v1_sound*/ r matches Ok ( s ) ==> decode_spec_v1 ( cursor . rem ( ) , seed_hash_of ( expected_seed ) ) == Some ( s . img ( ) ) ,
+/*@C14.theta.v1_total*/ r matches Ok ( s ) ==> all_valid ( s . entries @ , s . theta ) && ( s . empty ==> s . entries @ . len ( ) == 0 && s . theta == MAX_THETA_SPEC ) ,
+/*@C14.theta.v1_theta_range*/ r matches Ok ( s ) ==> 0 < s . theta <= MAX_THETA_SPEC ,
+/*@C14.theta.v1_sorted*/ r matches Ok ( s ) ==> ( s . ordered ==> sorted_strict ( s . entries @ ) ) , {
+let ghost p = cursor . rem ( ) ;
+let seed_hash = compute_seed_hash ( expected_seed ) ;
+cursor . read_u8 ( ) . vx_io ( "<unused>" ) ? ;
+cursor . read_u32_le ( ) . vx_io ( "<unused_u32_0>" ) ? ;
+let num_entries = cursor . read_u32_le ( ) . vx_io ( "num_entries" ) ? as usize ;
+cursor . read_u32_le ( ) . vx_io ( "<unused_u32_1>" ) ? ;
+let theta = cursor . read_u64_le ( ) . vx_io ( "theta_long" ) ? ;
+proof {
+assert ( p . skip ( 1 ) . skip ( 4 ) . take ( 4 ) =~= p . subrange ( 5 , 9 ) ) ;
+assert ( p . skip ( 1 ) . skip ( 4 ) . skip ( 4 ) . skip ( 4 ) . take ( 8 ) =~= p . subrange ( 13 , 21 ) ) ;
+assert ( p . skip ( 1 ) . skip ( 4 ) . skip ( 4 ) . skip ( 4 ) . skip ( 8 ) =~= p . skip ( 21 ) ) ;
+}
+let empty = num_entries == 0 && theta == MAX_THETA ;
+if empty {
+proof {
+assert ( dec_u64s ( p . skip ( 21 ) , 0 ) =~= Seq :: < u64 > :: empty ( ) ) ;
+lemma_sorted_small ( Seq :: < u64 > :: empty ( ) ) ;
+}
+return Ok ( Self {
+entries : vec! [ ] , theta , seed_hash , ordered : true , empty : true , }
+) ;
+}
+let entries = Self :: read_entries ( & mut cursor , num_entries , theta ) ? ;
+Ok ( Self {
+entries , theta , seed_hash , ordered : true , empty : false , }
+) }
+
+
+    fn deserialize_v2 ( pre_longs : u8 , mut cursor : SketchSlice < '_ > , expected_seed : u64 , ) -> ( r : Result < Self , Error > ) ensures
+/*@C13.theta.v2*/ decode_spec_v2 ( cursor . rem ( ) , pre_longs , seed_hash_of ( expected_seed ) ) matches Some ( x ) ==> ( r matches Ok ( s ) && s . img ( ) == x ) ,
+/*@C13.theta.v2_sound*/ r matches Ok ( s ) ==> decode_spec_v2 ( cursor . rem ( ) , pre_longs , seed_hash_of ( expected_seed ) ) == Some ( s . img ( ) ) ,
+/*@C14.theta.v2_total*/ r matches Ok ( s ) ==> all_valid ( s . entries @ , s . theta ) && ( s . empty ==> s . entries @ . len ( ) == 0 && s . theta == MAX_THETA_SPEC ) ,
+/*@C14.theta.v2_theta_range*/ r matches Ok ( s ) ==> 0 < s . theta <= MAX_THETA_SPEC ,
+/*@C14.theta.v2_sorted*/ r matches Ok ( s ) ==> ( s . ordered ==> sorted_strict ( s . entries @ ) ) , {
+let ghost p = cursor . rem ( ) ;
+cursor . read_u8 ( ) . vx_io ( "<unused>" ) ? ;
+cursor . read_u16_le ( ) . vx_io ( "<unused_u16>" ) ? ;
+let seed_hash = cursor . read_u16_le ( ) . vx_io ( "seed_hash" ) ? ;
+proof {
+assert ( p . skip ( 1 ) . skip ( 2 ) . take ( 2 ) =~= p . subrange ( 3 , 5 ) ) ;
+assert ( p . skip ( 1 ) . skip ( 2 ) . skip ( 2 ) =~= p . skip ( 5 ) ) ;
+}
+let expected_seed_hash = compute_seed_hash ( expected_seed ) ;
+if seed_hash != expected_seed_hash {
+return Err ( vx_err_deserial_fmt ( ) ) ;
+}
+proof {
+lemma_sorted_small ( Seq :: < u64 > :: empty ( ) ) ;
+}
+match pre_longs {
+V2_PREAMBLE_EMPTY => Ok ( Self {
+entries : vec! [ ] , theta : MAX_THETA , seed_hash , ordered : true , empty : true , }
+) , V2_PREAMBLE_PRECISE => {
+let num_entries = cursor . read_u32_le ( ) . vx_io ( "num_entries" ) ? as usize ;
+cursor . read_u32_le ( ) . vx_io ( "<unused_u32>" ) ? ;
+proof {
+assert ( p . skip ( 5 ) . take ( 4 ) =~= p . subrange ( 5 , 9 ) ) ;
+assert ( p . skip ( 5 ) . skip ( 4 ) . skip ( 4 ) =~= p . skip ( 13 ) ) ;
+}
+let entries = Self :: read_entries ( & mut cursor , num_entries , MAX_THETA ) ? ;
+Ok ( Self {
+empty : entries . is_empty ( ) , entries , theta : MAX_THETA , seed_hash , ordered : true , }
+) }
+V2_PREAMBLE_ESTIMATE => {
+let num_entries = cursor . read_u32_le ( ) . vx_io ( "num_entries" ) ? as usize ;
+cursor . read_u32_le ( ) . vx_io ( "<unused_u32>" ) ? ;
+let theta = cursor . read_u64_le ( ) . vx_io ( "theta_long" ) ? ;
+proof {
+assert ( p . skip ( 5 ) . take ( 4 ) =~= p . subrange ( 5 , 9 ) ) ;
+assert ( p . skip ( 5 ) . skip ( 4 ) . skip ( 4 ) . take ( 8 ) =~= p . subrange ( 13 , 21 ) ) ;
+assert ( p . skip ( 5 ) . skip ( 4 ) . skip ( 4 ) . skip ( 8 ) =~= p . skip ( 21 ) ) ;
+}
+let empty = ( num_entries == 0 ) && ( theta == MAX_THETA ) ;
+let entries = Self :: read_entries ( & mut cursor , num_entries , theta ) ? ;
+Ok ( Self {
+entries , theta , seed_hash , ordered : true , empty , }
+) }
+_ => Err ( Error :: invalid_preamble_longs ( & [ 1 , 2 , 3 ] , pre_longs ) ) , }
+}
+
+
+    fn deserialize_v3 ( pre_longs : u8 , mut cursor : SketchSlice < '_ > , expected_seed : u64 , ) -> ( r : Result < Self , Error > ) requires 1 <= pre_longs <= 3 , ensures
+/*@C13.theta.v3*/ decode_spec_v3 ( cursor . rem ( ) , pre_longs , seed_hash_of ( expected_seed ) ) matches Some ( x ) ==> ( r matches Ok ( s ) && s . img ( ) == x ) ,
+/*@C13.theta.v3_sound*/ r matches Ok ( s ) ==> decode_spec_v3 ( cursor . rem ( ) , pre_longs , seed_hash_of ( expected_seed ) ) == Some ( s . img ( ) ) ,
+/*@C14.theta.v3_total*/ r matches Ok ( s ) ==> all_valid ( s . entries @ , s . theta ) && ( s . empty ==> s . entries @ . len ( ) == 0 && s . theta == MAX_THETA_SPEC ) ,
+/*@C14.theta.v3_theta_range*/ r matches Ok ( s ) ==> 0 < s . theta <= MAX_THETA_SPEC ,
+/*@C14.theta.v3_sorted*/ r matches Ok ( s ) ==> ( s . ordered ==> sorted_strict ( s . entries @ ) ) , {
+let ghost p = cursor . rem ( ) ;
+cursor . read_u16_le ( ) . vx_io ( "<unused_u32>" ) ? ;
+let flags = cursor . read_u8 ( ) . vx_io ( "flags" ) ? ;
+let seed_hash = cursor . read_u16_le ( ) . vx_io ( "seed_hash" ) ? ;
+proof {
+assert ( p . skip ( 2 ) . skip ( 1 ) . take ( 2 ) =~= p . subrange ( 3 , 5 ) ) ;
+assert ( p . skip ( 2 ) . skip ( 1 ) . skip ( 2 ) =~= p . skip ( 5 ) ) ;
+}
+let empty = ( flags & FLAGS_IS_EMPTY ) != 0 ;
+let mut theta = MAX_THETA ;
+let num_entries ;
+let mut entries = vec! [ ] ;
+if ! empty {
+let expected_seed_hash = compute_seed_hash ( expected_seed ) ;
+if seed_hash != expected_seed_hash {
+return Err ( vx_err_deserial_fmt ( ) ) ;
+}
+if pre_longs == 1 {
+num_entries = 1 ;
+}
+else {
+num_entries = cursor . read_u32_le ( ) . vx_io ( "num_entries" ) ? ;
+cursor . read_u32_le ( ) . vx_io ( "<unused_u32>" ) ? ;
+proof {
+assert ( p . skip ( 5 ) . take ( 4 ) =~= p . subrange ( 5 , 9 ) ) ;
+assert ( p . skip ( 5 ) . skip ( 4 ) . skip ( 4 ) =~= p . skip ( 13 ) ) ;
+}
+if pre_longs > 2 {
+theta = cursor . read_u64_le ( ) . vx_io ( "theta_long" ) ? ;
+proof {
+assert ( p . skip ( 13 ) . take ( 8 ) =~= p . subrange ( 13 , 21 ) ) ;
+assert ( p . skip ( 13 ) . skip ( 8 ) =~= p . skip ( 21 ) ) ;
+}
+}
+}
+entries = Self :: read_entries ( & mut cursor , num_entries as usize , theta ) ? ;
+}
+proof {
+if entries @ . len ( ) <= 1 {
+lemma_sorted_small ( entries @ ) ;
+}
+}
+let ordered = ( flags & FLAGS_IS_ORDERED ) != 0 ;
+Ok ( Self {
+entries , theta , seed_hash , ordered , empty , }
+) }
+
+    fn deserialize_v4 ( pre_longs : u8 , mut cursor : SketchSlice < '_ > , expected_seed : u64 , ) -> ( r : Result < Self , Error > ) ensures
+/*@C14.theta_v4.total*/ r matches Ok ( s ) ==> all_valid ( s . entries @ , s . theta ) ,
+/*@C14.theta_v4.empty_consistent*/ r matches Ok ( s ) ==> ( s . empty ==> s . entries @ . len ( ) == 0 && s . theta == MAX_THETA_SPEC ) ,
+/*@C14.theta_v4.theta_range*/ r matches Ok ( s ) ==> 0 < s . theta <= MAX_THETA_SPEC ,
+/*@C14.theta_v4.sorted*/ r matches Ok ( s ) ==> ( s . ordered ==> sorted_strict ( s . entries @ ) ) , {
+let entry_bits = cursor . read_u8 ( ) . vx_io ( "entry_bits" ) ? ;
+let num_entries_bytes = cursor . read_u8 ( ) . vx_io ( "num_entries" ) ? ;
+let flags = cursor . read_u8 ( ) . vx_io ( "flags" ) ? ;
+let seed_hash = cursor . read_u16_le ( ) . vx_io ( "seed_hash" ) ? ;
+let empty = ( flags & FLAGS_IS_EMPTY ) != 0 ;
+if ! empty {
+let expected_seed_hash = compute_seed_hash ( expected_seed ) ;
+if seed_hash != expected_seed_hash {
+return Err ( vx_err_deserial_fmt ( ) ) ;
+}
+}
+let theta = if pre_longs > 1 {
+cursor . read_u64_le ( ) . vx_io ( "theta_long" ) ? }
+else {
+MAX_THETA }
+;
+let mut num_entries = 0usize ;
+for i in 0 .. num_entries_bytes {
+let entry_count_byte = cursor . read_u8 ( ) . vx_io ( "num_entries_byte" ) ? ;
+assert (
+/*@C14.theta_v4.shift*/ i < 8 ) ;
+assert ( i < 8 ==> ( ( i as usize ) << 3 ) < 64 ) by ( bit_vector ) ;
+num_entries |= ( entry_count_byte as usize ) << ( ( i as usize ) << 3 ) ;
+}
+let mut i = 0usize ;
+let mut entries = vx_zeroed_u64 ( num_entries , Ghost ( cursor . rem ( ) . len ( ) as int ) ) ;
+while i + BLOCK_WIDTH <= num_entries invariant entries @ . len ( ) == num_entries , i <= num_entries , 8 * num_entries <= 0x7fff_ffff_ffff_ffff , decreases num_entries - i {
+let mut block = vx_zeroed_u8 ( entry_bits as usize , Ghost ( cursor . rem ( ) . len ( ) as int ) ) ;
+cursor . read_exact ( & mut block ) . vx_io ( "delta_block" ) ? ;
+vx_unpack_block_at ( & mut entries , i , i + BLOCK_WIDTH , & block , entry_bits ) ;
+i += BLOCK_WIDTH ;
+}
+if i < num_entries {
+let rem = num_entries - i ;
+proof {
+assert ( rem * ( entry_bits as usize ) <= 7 * 255 ) by ( nonlinear_arith ) requires rem <= 7 , entry_bits <= 255 ;
+}
+let bytes_needed = ( rem * entry_bits as usize ) . div_ceil ( 8 ) ;
+let mut tail = vx_zeroed_u8 ( bytes_needed , Ghost ( cursor . rem ( ) . len ( ) as int ) ) ;
+cursor . read_exact ( & mut tail ) . vx_io ( "delta_tail" ) ? ;
+let mut unpacker = BitUnpacker :: new ( & tail ) ;
+let mut vx_k = i ;
+while vx_k < num_entries invariant i <= vx_k <= num_entries , entries @ . len ( ) == num_entries , rem == num_entries - i , rem < 8 , unpacker . byte_bit_used < 8 , unpacker . bitpos ( ) == ( vx_k - i ) * entry_bits , unpacker . bytes @ . len ( ) == bytes_needed , 8 * bytes_needed >= rem * entry_bits , decreases num_entries - vx_k {
+proof {
+lemma_mul_le ( vx_k - i + 1 , rem as int , entry_bits as int ) ;
+assert ( ( vx_k - i + 1 ) * entry_bits == ( vx_k - i ) * entry_bits + entry_bits ) by ( nonlinear_arith ) ;
+}
+entries [ vx_k ] = unpacker . unpack_value ( entry_bits ) ;
+vx_k += 1 ;
+}
+}
+let mut previous = 0 ;
+let mut vx_i2 = 0 ;
+while vx_i2 < entries . len ( ) invariant vx_i2 <= entries @ . len ( ) , forall | j : int | 0 <= j < vx_i2 ==> valid_hash ( # [ trigger ] entries @ [ j ] , theta ) , decreases entries @ . len ( ) - vx_i2 {
+let e = & mut entries [ vx_i2 ] ;
+assert (
+/*@C14.theta_v4.delta_overflow*/ * e + previous <= u64 :: MAX ) ;
+* e += previous ;
+previous = * e ;
+if * e == 0 || * e >= theta {
+return Err ( Error :: deserial ( "corrupted: invalid retained hash value" ) ) ;
+}
+vx_i2 += 1 ;
+}
+let ordered = ( flags & FLAGS_IS_ORDERED ) != 0 ;
+Ok ( Self {
+entries , theta , seed_hash , ordered , empty , }
+) }
+
+}
+// =====================================================================================================================
+// C11 over the contracts: a verified client that serializes (v3) and parses the image back.  Not real code; it exists so that
+// Verus composes C12 (serialize), lemma L (lemma_theta_v3_roundtrip) and C13 (deserialize_with_seed).
+// =====================================================================================================================
+fn c11_roundtrip_theta(a: &CompactThetaSketch, seed: u64) -> (b: CompactThetaSketch)
+  requires a.wf(), a.entries@.len() <= 0x0fff_ffff, a.empty || a.seed_hash == seed_hash_of(seed),
+  ensures /*@C11.theta.v3_roundtrip*/ b.img() == a.img(),
+{
+    let img = a.serialize();
+    proof { lemma_theta_v3_roundtrip(a.img(), seed_hash_of(seed)); }
+    match CompactThetaSketch::deserialize_with_seed(img.as_slice(), seed) {
+        Ok(b) => b,
+        Err(_) => { proof { assert(false); } c11_unreachable() }
     }
 }
+#[verifier::external_body] fn c11_unreachable() -> CompactThetaSketch requires false { unreachable!() }
 }
 fn main(){}
